@@ -260,11 +260,46 @@ fn check(case: &Case, obs: &mut Obs) -> PropResult {
 			}
 			obs.label("malformed5:unreachable_query_refused");
 		}
-		if case.malformed == 6 {
-			if g.get("no-such-version").is_ok() {
-				return Err("an unknown version name was resolved".into());
+		if case.malformed == 6 || case.malformed == 0 {
+			// names that designate no version: unrelated text, near misses of real keys, and `x~y` combinations of
+			// real keys that are not the two halves of one version (the exact `client~server` name of an existing
+			// version is left unspecified: the statement only promises the halves)
+			let mut keys: Vec<String> = Vec::new();
+			for full in &built.names {
+				match full.split_once('~') {
+					Some((a, b)) => {
+						keys.push(a.to_string());
+						keys.push(b.to_string());
+					}
+					None => keys.push(full.clone()),
+				}
 			}
-			obs.label("malformed6:unknown_version_refused");
+			let is_key = |x: &str| keys.iter().any(|k| k == x);
+			let mut unknown: Vec<String> = vec!["no-such-version".into(), String::new(), "~".into()];
+			for k in &keys {
+				for cand in [format!("{k} "), format!(" {k}"), format!("{k}~"), format!("~{k}"), format!("{k}0"), k[..k.len() - 1].to_string(), k.to_uppercase(), format!("{k}.tiny"), format!("{k}#{k}")] {
+					if !is_key(&cand) {
+						unknown.push(cand);
+					}
+				}
+			}
+			for (i, x) in keys.iter().enumerate() {
+				for (j, y) in keys.iter().enumerate() {
+					let pair = format!("{x}~{y}");
+					if i != j && !built.names.contains(&pair) {
+						unknown.push(pair);
+					}
+				}
+			}
+			unknown.truncate(120);
+			for name in &unknown {
+				if let Ok((split, v)) = g.get(name) {
+					return Err(format!("get({name:?}) names no version of the directory but was resolved to ({split:?}, {:?})", v.as_str()));
+				}
+			}
+			obs.label("unknown_names_refused");
+			obs.label_if(case.malformed == 6, "malformed6:unknown_version_refused");
+			obs.label_if(unknown.iter().any(|u| u.contains('~') && u.len() > 2 && !u.starts_with('~') && !u.ends_with('~')), "mixed_halves_queried");
 		}
 		let _ = &mut broken;
 		results.push(got);
